@@ -166,7 +166,8 @@ def execute(h):
                         symbol=sym, type=mu['type'], other=other)
         # factory dispatch (amounts in every spelling a user may write)
         from decimalfp import Decimal
-        amt_s = ['3', '2.5', '7/3', '-1', '1e3'][(step + len(sym)) % 5]
+        amt_s = ['3', '2.5', '7/3', '-1', '1e3', '+3', '.5', '3.', '1E-2',
+                 '+7/3', '-0'][(step + len(sym)) % 11]
         amt_n = [3, 2.5, Fraction(7, 3), Decimal('-1.5'),
                  '12'][(step + len(sym)) % 5]
         for how, fn in (('number_and_unit', lambda: Quantity(amt_n, u)),
@@ -174,7 +175,11 @@ def execute(h):
                         ('own_class_string', lambda: cls(f"{amt_s} {sym}")),
                         ('string_spaced',
                          lambda: Quantity(f"  {amt_s}  {sym} ")),
-                        ('own_class_number', lambda: cls(amt_n, u))):
+                        ('own_class_number', lambda: cls(amt_n, u)),
+                        ('string_and_same_unit',
+                         lambda: Quantity(f"{amt_s} {sym}", u)),
+                        ('own_class_string_and_unit',
+                         lambda: cls(f"{amt_s} {sym}", u))):
             try:
                 q = fn()
             except Exception as e:      # noqa
